@@ -117,7 +117,7 @@ CLAIMS.update({
         "evaluators, the transform is applied in axis order, VarMap assigns an index once (get_or_insert) and only in "
         "insert, missing variables and short/ragged argument lists are errors, and Transformable for f32/Interval/Grad are "
         "the same homogeneous transform; native code (x86_64, aarch64) addresses slot i at i x bytes-per-slot; fresh variables "
-        "draw their index from a process-wide source; the inner evaluator is handed only the scratch rows the binding loop filled and nothing can succeed before it; call helpers hand the variable pointer back.",
+        "draw their index from a process-wide source; the inner evaluator is handed only the scratch rows the binding loop filled and nothing can succeed before it; call helpers hand the variable pointer back; binding a variable set checks every named variable, and a per-sample variable array of any other length than the sample count is an error.",
         "static analysis: axis/role-consistency and sibling-agreement lint",
     ),
     "C15": _c(
@@ -162,7 +162,7 @@ CLAIMS.update({
         "the rejecting functions, the map form and the chained form of a constructor derive every field identically "
         "(default as hint / default when absent / error), and coercion tables map array indices, names and constants to "
         "their namesakes; script names take precedence over engine fallbacks; registration and classification order; the "
-        "engine's limits are the documented ones; script-side vector arithmetic keeps operands in source order in all five operand forms; the two rejecting comparison overloads cover (tree, other) and (other, tree); a positional argument no field takes is an error. The reflection-driven overload dispatch on argument types is out of static reach.",
+        "engine's limits are the documented ones; script-side vector arithmetic keeps operands in source order in all five operand forms; the two rejecting comparison overloads cover (tree, other) and (other, tree); a positional argument no field takes is an error; axes() hands out each coordinate tree under its own name; names (strings, characters) are tried in their place in each conversion's order. The reflection-driven overload dispatch on argument types is out of static reach.",
         "static analysis: registration-table agreement and sibling-builder agreement lint (including macro token streams)",
     ),
     "C18": _c(
@@ -170,7 +170,7 @@ CLAIMS.update({
         "each manipulation writes only its own fields (write-set inventory), changed flags compare old with new before "
         "assigning, View2/View3 siblings agree modulo dimension, zoom re-centres through the full matrix, yaw wraps and "
         "pitch clamps the whole sum, canvases adopt the image size before converting cursor positions, the changed flag collects "
-        "only drag / zoom results, a zoom during a pan refreshes the stored handle.",
+        "only drag / zoom results, a zoom during a pan refreshes the stored handle, and a cursor pixel reaches world space only through the canvas's own region applied to the cursor's own coordinates.",
         "static analysis: write-set, sibling-agreement and ordering lint",
     ),
     "C19": _c(
